@@ -166,7 +166,9 @@ class HttpRelayClient(RelayPoolClient):
         if status.startswith('2'):
             result.set(smtp_reply)
         else:
-            if smtp_reply:
+            # A reply header that claims success on a failed request cannot be
+            # trusted as the reason for the failure: go by the HTTP status.
+            if smtp_reply and not smtp_reply.code.startswith('2'):
                 exc = SmtpRelayError.factory(smtp_reply)
             elif status.startswith('4'):
                 exc = PermanentRelayError(http_res.reason)
